@@ -14,7 +14,7 @@ import (
 
 func init() {
 	register(&Rule{ID: "VD15", Min: 6, Run: rulePlanKeys,
-		Doc: "plan-title-key-agreement: in the plan validator and in the plan builder every map insert/lookup keyed by a task title or an `after` entry uses the input string verbatim (no trimming or other transformation), so both sides resolve titles identically"})
+		Doc: "plan-title-key-agreement: in the plan validator and in the plan builder every map insert/lookup keyed by a task title or an `after` entry uses the input string verbatim (no trimming or other transformation), so both sides resolve titles identically; the input is not rewritten before validation; and a field is blank exactly when strings.TrimSpace(x) == \"\" (a hand-written blank test - a byte loop over unicode.IsSpace - disagrees with it on non-ASCII white space)"})
 	register(&Rule{ID: "OU4", Min: 8, Run: ruleOU4,
 		Doc: "text-flow-whitelist: the Title/Body fields of every create/title/body event built by a command derive from the input (JSON fields, --title/--body flags, stdin) through loads, stores, phis, parameters, update-map entries under constant keys, the identity resolver and byte/string conversion only; strings.TrimSpace is allowed only on a title taken from the --title flag or from the \"title\" update key (documented); the bytes handed to the JSON decoder of an input parser are the bytes read from stdin (no rewriting pre-pass); replay stores payload titles/bodies unchanged (legacy untitled items excepted) and the JSON show output loads them unchanged"})
 }
@@ -489,12 +489,44 @@ func rulePlanKeys(c *Ctx) {
 	rew := c.inputRewrites(map[string]bool{"ergo.PlanInput": true, "ergo.PlanTaskInput": true, "ergo.PlanTask": true})
 	c.check(len(rew) == 0, "ergo.PlanInput", "input-not-rewritten", "-", "the decoded plan is not modified between decoding, validation and the build of the events",
 		"the decoded plan is rewritten before it is validated and recorded ("+strings.Join(rew, "; ")+"): titles and `after` entries no longer mean what the document says - a reference rewritten to another title silently records a different edge")
+	// what counts as a blank title/body is what replay's legacy migration and the set builder mean by it:
+	// strings.TrimSpace(x) == "" (Unicode white space). A validator that decides blankness some other way (byte by byte,
+	// ASCII only) lets a title through that replay then treats as missing and rewrites
+	if v := c.Fn("(*ergo.PlanInput).Validate"); v != nil {
+		nTrim := 0
+		for g := range c.F.TransitiveCallees(v) {
+			if !c.InModule(g) || g.Blocks == nil {
+				continue
+			}
+			for _, bf := range directFacts(g) {
+				if bf.A.Kind != "const" || constStr(bf.A.C) != "" || bf.A.C == nil || bf.A.C.Value == nil {
+					continue
+				}
+				if cl, _ := callOf(bf.A.X); cl != nil && calleeFullName(&cl.Call) == "strings.TrimSpace" {
+					nTrim++
+				}
+			}
+		}
+		c.check(nTrim > 0, c.Name(v), "blank-means-trimspace-empty", c.FnPos(v), "blank fields are recognised by strings.TrimSpace(x) == \"\"",
+			"the plan validator never compares strings.TrimSpace(x) with \"\": blankness is decided some other way than replay decides it, so a title made of non-ASCII white space is accepted, recorded, and replaced by the legacy-title migration on every read")
+	}
 	var fns []*ssa.Function
 	if v := c.Fn("(*ergo.PlanInput).Validate"); v != nil {
 		fns = append(fns, v)
 	}
 	if rp := c.ErgoFn("RunPlan"); rp != nil {
-		fns = append(fns, Closures(rp)...)
+		// the plan is built in the lock callback; other closures of RunPlan (a text printer handed to a reply helper)
+		// resolve no titles
+		var cbs []*ssa.Function
+		for _, cl := range Closures(rp) {
+			if c.F.Callbacks[cl] != nil {
+				cbs = append(cbs, cl)
+			}
+		}
+		if len(cbs) == 0 {
+			cbs = Closures(rp)
+		}
+		fns = append(fns, cbs...)
 	}
 	if len(fns) < 2 {
 		c.unk("ergo.RunPlan", "plan-functions", "-", "plan validator or plan callback not found")
